@@ -748,3 +748,38 @@ C12_INIT_PLATES = dict(
     implicit_return="tt",
 )
 ALL += [C12_INIT_OBS, C12_INIT_PLATES]
+
+# ---- C19: nextflow/scripts/batchie.py (vocabulary: end of Model/Orchestrate.v) ----
+# A path the script holds is the model value it denotes: the output directory is the tree (fs), a globbed iteration
+# directory is iter_path = (index, its plate directories), a globbed plate directory is plate_path = ((i, j), its files).
+# Exceptions live in Orchestrate.sres (SNamed = a RuntimeError that names a job directory).
+_SRES = dict(type="sres", bind="dos", ok="SOk", fold="sfold", unwrap="sunwrap", bind_quote="")
+_C19 = dict(file="nextflow/scripts/batchie.py", out="SrcOrchestrate.v", imports="Model.Orchestrate", monad=_SRES, overload=True)
+_NAMES_DIR = ". Consider deleting this directory to continue simulation: {plate_dir}"      # the directory the message names
+C19_EXAMINE = dict(
+    _C19, func="examine_output_dir_to_determine_current_iteration", name="src_examine",
+    pyparams=["output_dir", "batch_size"], params=[("output_dir", "fs"), ("batch_size", "Z")],
+    returns="(Z * Z * opt Z * opt spath)",
+    vars={"contents_of_output_directory": "list iter_path", "iter_dirs": "list iter_path", "iter_dir": "iter_path",
+          "contents_of_iter_directory": "list plate_path", "plate_dirs": "list plate_path", "plate_dir": "plate_path",
+          "last_successful_run_meta": "opt Z", "current_iter_index": "opt Z", "current_plate_idx": "opt Z",
+          "idx": "Z", "plate_idx": "Z", "next_iter_index": "Z", "next_plate_index": "Z"},
+    # plate_dir is read after the loops that bind it (only on paths where the inner loop ran: the linking proof shows the
+    # default is never read)
+    predefine={"plate_dir": "((0, 0), empty_pdir)"},
+    prims=[
+        ("glob.glob(output_dir + '/iter_*')", "glob_iters output_dir'", "list iter_path"),
+        ("glob.glob(__d + '/plate_*')", "glob_plates {d}", "list plate_path", {"d": "iter_path"}),
+        ("os.path.isdir(__x)", "true", "bool", {"x": "iter_path"}),       # every entry of the model tree is a directory
+        ("os.path.isdir(__x)", "true", "bool", {"x": "plate_path"}),
+        ("sorted(__l, key=dir_sort_key)", "sort_by iter_index {l}", "list iter_path", {"l": "list iter_path"}),
+        ("sorted(__l, key=dir_sort_key)", "sort_by plate_index {l}", "list plate_path", {"l": "list plate_path"}),
+        ("dir_sort_key(__x)", "iter_index {x}", "Z", {"x": "iter_path"}),
+        ("dir_sort_key(__x)", "plate_index {x}", "Z", {"x": "plate_path"}),
+        ("validate_job_dir_and_return_meta(__p)", "meta_of {p}", "opt Z", {"p": "plate_path"}),
+        ("get_screen_from_job_output(__p)", "screen_of_path {p}", "opt spath", {"p": "plate_path"}),
+    ],
+    raises=[("Found job dir with invalid structure" + _NAMES_DIR, "SNamed 1 (fst {plate_dir})"),
+            ("Found job dir with no apparent ancestor" + _NAMES_DIR, "SNamed 2 (fst {plate_dir})")],
+)
+ALL += [C19_EXAMINE]
